@@ -60,6 +60,9 @@ type Prop struct {
 	FaultKinds  []string // counter names (prefix "fault.") this property can inject; all reported even when zero
 	NotInjected string   // fault kinds that do not exist for this property and why
 	Gen         func(seed uint64, tier string) any
+	// GenAt (optional) may derive the scenario from the position of the run in the batch instead of from its seed
+	// alone, for systematic sweeps in the thorough tier; returning nil falls back to Gen.
+	GenAt func(base uint64, i int, tier string) any
 	New         func() any
 	Exec        func(t *testing.T, sc any, keepLog bool) *Outcome
 	Shrink      func(sc any) []any
@@ -189,7 +192,13 @@ func runWorker(t *testing.T) {
 			break
 		}
 		seed := seedFor(base, i)
-		sc := p.Gen(seed, tier)
+		var sc any
+		if p.GenAt != nil {
+			sc = p.GenAt(base, i, tier)
+		}
+		if sc == nil {
+			sc = p.Gen(seed, tier)
+		}
 		if debug {
 			fmt.Fprintf(os.Stderr, "DEBUG run %d seed %d start\n", i, seed)
 		}
